@@ -29,7 +29,8 @@ func (fl *PFLine) Reset() {
 
 // Request returns true if the parsed first line corresponds to a SIP request.
 func (fl *PFLine) Request() bool {
-	return fl.Status == 0
+	// a reply with status 000 has Status == 0 too, but a non-empty StatusCode
+	return fl.Status == 0 && fl.StatusCode.Empty()
 }
 
 // Empty returns true is nothing has been parsed yet.
